@@ -127,7 +127,7 @@ def run(eng, rep) -> None:
                     rep.violation("R16.2", f.file, f.qual, norm(n, 60), "allocation sized by a decoded length")
                 if isinstance(a0, ast.Call) and dotted(a0.func) == "range" and {x.id for x in ast.walk(a0) if isinstance(x, ast.Name)} & tainted:
                     rep.violation("R16.2", f.file, f.qual, norm(n, 60), "materialises range(<decoded length>)")
-    rep.floor("R16.2", "loops whose trip count is decoded from the input", n_loops, 2)
+    rep.floor("R16.2", "loops whose trip count is decoded from the input", n_loops, 1)
 
     # ---- R16.4 ---------------------------------------------------------------------
     from .codec_py import parser_type_classes, grammar_of
@@ -139,7 +139,8 @@ def run(eng, rep) -> None:
             kn = K.split(".")[-1]
             try:
                 effs, it = grammar_of(eng, pr, disp, K, "dec")
-            except Unsupported:
+            except Unsupported as u:
+                rep.undecided("R16.4", disp.file, disp.qual, "Eff_dec(%s)" % kn, "handler outside the supported statement forms: %s" % u)
                 continue
 
             def loops(es):
@@ -166,7 +167,6 @@ def run(eng, rep) -> None:
                                   "the length prefix is reinterpreted as a signed integer: a corrupted prefix with the top bit set becomes a negative count, the element loop reads nothing and the rest of the message is decoded from the wrong offset without any error")
                 else:
                     rep.undecided("R16.4", disp.file, disp.qual, "Eff_dec(%s): loop count %s" % (kn, str(c)[:60]), "count is not the raw word read from the input; conversion not decided")
-    rep.floor("R16.4", "data-dependent element loops in the decoder grammars", n_cnt, 2)
 
     # ---- R16.3 ---------------------------------------------------------------------
     dec = prog.func(DEC)
